@@ -113,7 +113,9 @@ func (r *rig) start() error {
 
 // restart serves the same service again on a fresh connection.
 func (r *rig) restart() error {
+	noGoID := r.C.NoGoID
 	r.C = vconn.New()
+	r.C.NoGoID = noGoID // set before the connection is in use (recording reads it unsynchronised)
 	r.serveRet = make(chan error, 1)
 	r.served = make(chan struct{})
 	return r.start()
